@@ -39,9 +39,15 @@ function run(bytes) {
   return { inst: 'ok', log, trace, fin: fin.join(' ') };
 }
 const A = run(bytesA), B = run(bytesB);
+// Stack exhaustion happens at an implementation-defined depth that depends on frame sizes (walrus drops unused locals, so its
+// output recurses deeper): what a call that ran out of stack did before it did, and everything after it, is not comparable.
+// The comparison stops at the first call that exhausts the stack in either binary; the final state is then not compared.
+let cut = -1;
+for (let i = 0; i < Math.max(A.log.length, B.log.length); i++) if ((A.log[i] || '').includes('-> exhaustion:') || (B.log[i] || '').includes('-> exhaustion:')) { cut = i; break; }
+if (cut >= 0) { A.log.length = Math.min(A.log.length, cut); B.log.length = Math.min(B.log.length, cut); A.fin = B.fin = ''; }
 const mism = [];
 if (A.inst !== B.inst) mism.push(`instantiation: input ${A.inst} / output ${B.inst}`);
 for (let i = 0; i < Math.max(A.log.length, B.log.length); i++) if (A.log[i] !== B.log[i]) { mism.push(`call ${i}: input \`${A.log[i]}\` / output \`${B.log[i]}\``); if (mism.length > 5) break; }
 if (A.fin !== B.fin) mism.push(`final state: input \`${A.fin}\` / output \`${B.fin}\``);
 const traps = A.log.filter(l => l.includes('-> trap:')).length;
-console.log(JSON.stringify({ id, which, name: plan.name, verdict: mism.length ? 'differs' : 'same', mismatches: mism, calls: A.log.length, traps, host_calls: A.trace.length, inst: A.inst }));
+console.log(JSON.stringify({ id, which, name: plan.name, verdict: mism.length ? 'differs' : 'same', mismatches: mism, calls: A.log.length, traps, host_calls: A.trace.length, inst: A.inst, cut_at_exhaustion: cut }));
